@@ -1117,6 +1117,55 @@ Definition replace (params : list Z) (ctor : list pval -> res pyobj) (cs : list 
     end.
 
 (* ------------------------------------------------------------------------------------------ *)
+(* 5c. Rdataset.processing_order: Rdata._processing_order (shuffle) and
+       dns.rdtypes.util.priority_processing_order (MX, KX, RT, AFSDB, PX, NAPTR, SVCB, HTTPS).
+       random.shuffle is a parameter: any function returning a rearrangement of its argument.
+       (weighted_processing_order of SRV / URI draws random numbers and is not modelled.) *)
+
+Section Proc.
+  Variable A : Type.
+  Variable shuffle : list A -> list A.
+  Variable prio : A -> Z.                 (* rdata._processing_priority() *)
+
+  (* by_priority[prio].append(rdata) on a defaultdict(list) *)
+  Fixpoint tbl_add (k : Z) (x : A) (t : list (Z * list A)) : list (Z * list A) :=
+    match t with
+    | [] => [(k, [x])]
+    | (k', l) :: r => if k' =? k then (k', l ++ [x]) :: r else (k', l) :: tbl_add k x r
+    end.
+
+  (* _priority_table *)
+  Definition ptable (items : list A) : list (Z * list A) :=
+    fold_left (fun t x => tbl_add (prio x) x t) items [].
+
+  Definition grp (t : list (Z * list A)) (k : Z) : list A :=
+    match alist_get k t with Some l => l | None => [] end.
+
+  (* sorted(by_priority.keys()) *)
+  Fixpoint insert_z (k : Z) (l : list Z) : list Z :=
+    match l with
+    | [] => [k]
+    | x :: r => if k <=? x then k :: l else x :: insert_z k r
+    end.
+  Definition sort_z (l : list Z) : list Z := fold_right insert_z [] l.
+
+  (* priority_processing_order *)
+  Definition priority_order (items : list A) : list A :=
+    match items with
+    | [_] => items
+    | _ => let t := ptable items in
+           flat_map (fun k => shuffle (grp t k)) (sort_z (map fst t))
+    end.
+
+  (* Rdataset.processing_order: [] when empty, else the order of the members' type *)
+  Definition processing_order (by_priority : bool) (items : list A) : list A :=
+    match items with
+    | [] => []
+    | _ => if by_priority then priority_order items else shuffle items
+    end.
+End Proc.
+
+(* ------------------------------------------------------------------------------------------ *)
 (* 6. harness interface *)
 
 Definition rd_of_obs (o : obs) : option rdata :=
@@ -1448,6 +1497,11 @@ Definition run (c : obs) : obs :=
           | Lib e => E e | Internal e => E e
           end
       | _, _, _, _, _ => E eBadCase
+      end
+  | L [I 10; I mode; L items] =>                             (* processing_order with shuffle := reverse *)
+      match opt_map (fun o => match o with L [I p; I i] => Some (p, i) | _ => None end) items with
+      | Some l => L (map (fun x => I (snd x)) (processing_order (Z * Z) (@rev _) fst (mode =? 1) l))
+      | None => E eBadCase
       end
   | L [I 6; v; I enc; ml; I eok; I tup] =>                   (* _as_bytes / _as_tuple(_as_bytes) *)
       match pval_of_obs v, oz_of_obs ml with
